@@ -489,3 +489,83 @@ def k_e2e(p):
 
 
 KINDS.update({"e2e": k_e2e})
+
+
+def _graph_rows(name):
+    import importlib.util, os, sys
+    # the graph family lives in checks/repair.py, which needs z3: keep a z3-free copy of the definitions here
+    k = int(name.rsplit("-", 1)[1])
+    GC2 = [[-1, -1, -1, -1], [4, -1, -1, 7], [8, -1, -1, 11], [-1, -1, -1, -1], [-1, 1, 2, -1], [-1, -1, -1, -1], [-1, -1, -1, -1], [-1, 13, 14, -1],
+           [-1, 1, 2, -1], [-1, -1, -1, -1], [-1, -1, -1, -1], [-1, 13, 14, -1], [-1, -1, -1, -1], [4, -1, -1, 7], [8, -1, -1, 11], [-1, -1, -1, -1]]
+    N = 4 ** k
+    if name == "complete-1":
+        return k, induced(1, [True] * 4)
+    if name == "ACG-1":
+        return k, induced(1, [True, True, True, False])
+    if name == "AC-1":
+        return k, induced(1, [True, True, False, False])
+    if name == "gc-balanced-2":
+        return k, GC2
+    if name == "no-homopolymer-2":
+        m = [1] * 16
+        for v in (0, 5, 10, 15):
+            m[v] = 0
+        return k, induced(2, gfp(2, m, 2))
+    if name == "complete-2":
+        return k, induced(2, [True] * 16)
+    if name == "mixed-2":
+        return k, induced(2, gfp(2, [1, 1, 0, 1, 1, 0, 1, 0, 0, 1, 1, 1, 1, 0, 1, 0], 1))
+    if name.startswith("no-repeat-"):
+        m = []
+        for v in range(N):
+            d = [(v // 4 ** (k - 1 - i)) % 4 for i in range(k)]
+            m.append(0 if any(d[i] == d[i + 1] for i in range(k - 1)) else 1)
+        return k, induced(k, gfp(k, m, 2))
+    raise KeyError(name)
+
+
+def _is_walk(acc, start, s):
+    v = start
+    for c in s:
+        if c not in NUC or acc[v][NUC.index(c)] < 0:
+            return False
+        v = acc[v][NUC.index(c)]
+    return True
+
+
+def k_repair(p):
+    """C08 / C09 / C10 on a concrete input."""
+    import dsw
+    k, rows = _graph_rows(p["graph"])
+    acc = np.array(rows, dtype=int)
+    s, start = p["strand"], int(p["start"])
+    chk = p.get("vt_check")
+    r, ex = call(dsw.repair_dna, s, acc, start, k, vt_check=chk, has_indel=bool(p.get("has_indel", True)), heap_size=p.get("heap_size", 1e9))
+    if ex is not None:
+        return True, "repair_dna(%r, start=%d) raised %s" % (s, start, ex)
+    if not (isinstance(r, tuple) and len(r) == 2 and isinstance(r[0], list) and isinstance(r[1], tuple) and len(r[1]) == 4):
+        return True, "malformed result %r" % (r,)
+    cands, stats = r
+    if any(not isinstance(c, str) for c in cands):
+        return True, "non-string candidate"
+    if any(cands[i] >= cands[i + 1] for i in range(len(cands) - 1)):
+        return True, "candidate list %s is not sorted and duplicate-free" % cands
+    if chk is not None:
+        for c in cands:
+            if all(ch in NUC for ch in c) and vt_ref(c, len(chk)) != chk:
+                return True, "candidate %r does not reproduce the supplied check %r" % (c, chk)
+    if _is_walk(rows, start, s) and len(s) >= k:
+        exp = [s] if (chk is None or vt_ref(s, len(chk)) == chk) else []
+        if cands != exp or stats[0] != 0:
+            return True, "clean walk %r: returned %s with %d detected errors, expected %s / 0" % (s, cands, stats[0], exp)
+    if p.get("orig") is not None:
+        w, nedits = p["orig"], int(p.get("edits", 1))
+        detected = stats[0]
+        if nedits == 1 and (detected >= 1) != (not _is_walk(rows, start, s)):
+            return True, "single edit %r -> %r: detected=%d but corrupted strand is%s a walk" % (w, s, detected, "" if _is_walk(rows, start, s) else " not")
+        if detected == nedits and w not in cands:
+            return True, "original %r is not among the candidates %s of %r (detected %d = edits)" % (w, cands[:6], s, detected)
+    return False, "ok: %d candidates, stats %s" % (len(cands), stats)
+
+
+KINDS.update({"repair": k_repair})
